@@ -85,7 +85,7 @@ theorem cellStep_fits (hperm : ∀ ws l, (sortCols ws l).Perm l)
         have ht := distribute_total (sortCols ws l) ws
           ((splitShrink shrink ws c.col c.span w).1 + sumRange ws c.col c.span) hne hnd hlt
         rw [perm_sum_map _ hp] at ht
-        rw [addBack_sum ws _ c.span c.col (splitShrink shrink ws c.col c.span w).1]
+        rw [addBack_sum ws _ c.span c.col (splitShrink shrink ws c.col c.span w).1, ← hl]
         omega
       · have he' : (splitShrink shrink ws c.col c.span w).2.isEmpty = false := by simpa using he
         simp only [he', Bool.false_and, Bool.false_eq_true, if_false]
@@ -107,6 +107,7 @@ theorem cellStep_fits (hperm : ∀ ws l, (sortCols ws l).Perm l)
         have hs := split_sum shrink ws
           (distribute ws (splitShrink shrink ws c.col c.span w).1 (sortCols ws l)) c.span c.col w
           (fun i _ _ h3 => distribute_unchanged _ _ _ _ (fun hm => h3 (hp.mem_iff.mp hm)))
+        rw [← hl] at hs
         omega
 
 theorem fits_mono (lm : List Nat) (ws ws' : List Int) (c : Cell)
